@@ -269,7 +269,7 @@ func runCorrupt(r *ev.Run, target string, sigPrefix string) (*corruptStats, int)
 				next++
 				mu.Unlock()
 				lo := sp.lo
-				for lo < sp.hi {
+				for lo < sp.hi && !r.OutOfTime() {
 					inflight, completed, diag := runSpan(lo, sp.hi, noProgress)
 					if diag == "" {
 						break
